@@ -45,6 +45,17 @@ def build_cases(r, tier, count, maxn, small_exhaustive):
                 if cid.startswith("x") and wt == "i" and v != "signed": continue
                 k = "%s-%s-%s" % (cid, v, wt)
                 cases[k] = c; meta[k] = (v, wt)
+    # dense mid-size graphs for the signed variant: cycle spaces of dimension 40-100, many sparsest-support swaps that pull far
+    # coordinates to the front, supports that are NOT confined to coordinates <= their index (what a "textbook" shortcut in
+    # the support update would assume)
+    for i in range(70 if tier == "quick" else 600):
+        n = r.randint(11, 17); p = r.uniform(.45, .75)
+        E = [(a, b) for a in range(n) for b in range(a + 1, n) if r.random() < p]
+        r.shuffle(E)
+        st = r.choice(["wide", "wide", "unit", "small"])
+        WE, scale = weights(r, [(a, b) if r.random() < .5 else (b, a) for (a, b) in E], st)
+        k = "dm%d-signed-d" % i
+        cases[k] = (n, WE, scale, "dense-mid"); meta[k] = ("signed", "d")
     return cases, meta
 
 def run_exact(binary, cases, meta, timeout=3600):
